@@ -496,10 +496,10 @@ func runQuery(r *lib.Run, g *gspec, w *world, q query, tag string) {
 		}
 		cls := "gc-removes-needed-other"
 		switch {
-		case len(w.sibs[t]) > 0 && w.sibs[t][0] != t:
-			cls = "gc-sibling-overrides-keep"
 		case !onePass()[t]:
-			cls = "gc-test-of-later-kept-target"
+			cls = "gc-test-of-later-kept-target" // the single test pass never kept it
+		case len(w.sibs[t]) > 0 && w.sibs[t][0] != t:
+			cls = "gc-sibling-overrides-keep" // kept, but its gc_sibling decides
 		}
 		r.OracleFail(cls, op, fmt.Sprintf("target %d (%s) is needed by a kept root but is proposed for removal; output: %s", t, w.labels[t], res))
 	}
@@ -507,10 +507,10 @@ func runQuery(r *lib.Run, g *gspec, w *world, q query, tag string) {
 	for c := 0; c < w.n; c++ {
 		if k[c] && w.has(c, 16) && w.pl[c] < w.n && removed[w.pl[c]] && !removed[c] {
 			cls := "gc-rule-of-needed-subtarget-removed"
-			if p := w.pl[c]; len(w.sibs[p]) > 0 && w.sibs[p][0] != p {
-				cls = "gc-sibling-overrides-keep"
-			} else if !onePass()[c] {
+			if p := w.pl[c]; !onePass()[c] {
 				cls = "gc-test-of-later-kept-target"
+			} else if onePass()[p] && len(w.sibs[p]) > 0 && w.sibs[p][0] != p {
+				cls = "gc-sibling-overrides-keep" // the rule itself is kept, but its gc_sibling decides
 			}
 			r.OracleFail(cls, op, fmt.Sprintf("hidden sub-target %d (%s) is needed, but its rule %s is proposed for removal; output: %s", c, w.labels[c], w.labels[w.pl[c]], res))
 		}
@@ -537,8 +537,6 @@ func runQuery(r *lib.Run, g *gspec, w *world, q query, tag string) {
 			asData := asDatum && !asSrc
 			cls := "gc-deletes-source-of-needed-target"
 			switch {
-			case removed[t] && len(w.sibs[t]) > 0 && w.sibs[t][0] != t:
-				cls = "gc-sibling-overrides-keep"
 			case !onePass()[t]:
 				cls = "gc-test-of-later-kept-target"
 			case asData:
